@@ -18,6 +18,7 @@
 #include <chrono>
 #include <csignal>
 #include <sys/time.h>
+#include <sys/wait.h>
 #include <cstdint>
 #include <cstdio>
 #include <cstdlib>
@@ -302,7 +303,47 @@ inline void arm(int sec) {
   struct itimerval it; memset(&it, 0, sizeof it); it.it_value.tv_sec = sec;
   setitimer(ITIMER_VIRTUAL, &it, nullptr);
 }
-inline Verdict guarded_run(const Prop &p, const CaseText &t) {
+inline Verdict guarded_run_inproc(const Prop &p, const CaseText &t);
+// --fork: every case runs in a forked child and a crash of the child (sanitizer abort, signal, watchdog) is an ordinary
+// failing verdict, so that rapidcheck can shrink it.  The driver re-runs a campaign that died with a crash.case in this
+// mode with the same seed: the same cases are generated, the crashing one is reached again and minimised.
+inline bool &fork_mode() { static bool v = false; return v; }
+inline Verdict forked_run(const Prop &p, const CaseText &t) {
+  int fd[2];
+  if (pipe(fd) != 0) return guarded_run_inproc(p, t);
+  fflush(stdout); fflush(stderr);
+  pid_t pid = fork();
+  if (pid < 0) { close(fd[0]); close(fd[1]); return guarded_run_inproc(p, t); }
+  if (pid == 0) {
+    close(fd[0]);
+    st().outdir.clear();                                    // the child never writes crash.case / stats
+    int dn = open("/dev/null", O_WRONLY); if (dn >= 0) { dup2(dn, 2); close(dn); }   // sanitizer reports of shrink candidates are noise
+    Verdict v = guarded_run_inproc(p, t);
+    std::string o = std::string(v.ok ? "1" : "0") + "\n" + (v.nontrivial ? "1" : "0") + "\n" + std::to_string(v.evals) + "\n" + (v.vacuous ? "1" : "0") + "\n" + v.excluded + "\n" + std::to_string(v.labels.size()) + "\n";
+    for (auto &l : v.labels) o += l + "\n";
+    o += v.msg;
+    size_t off = 0; while (off < o.size()) { ssize_t w = write(fd[1], o.data() + off, o.size() - off); if (w <= 0) break; off += (size_t)w; }
+    _exit(0);
+  }
+  close(fd[1]);
+  std::string in; char buf[4096]; ssize_t r;
+  while ((r = read(fd[0], buf, sizeof buf)) > 0) in.append(buf, (size_t)r);
+  close(fd[0]);
+  int stt = 0; waitpid(pid, &stt, 0);
+  if (!(WIFEXITED(stt) && WEXITSTATUS(stt) == 0)) {
+    char m[160]; snprintf(m, sizeof m, "the case killed the process (%s %d): sanitizer report, fatal signal or CPU-time bound - replay the case to see it", WIFSIGNALED(stt) ? "signal" : "exit status", WIFSIGNALED(stt) ? WTERMSIG(stt) : WEXITSTATUS(stt));
+    return Verdict::fail(m);
+  }
+  Verdict v; std::vector<std::string> ln; size_t pos = 0;
+  for (int i = 0; i < 6; i++) { size_t e = in.find('\n', pos); if (e == std::string::npos) return Verdict::fail("harness: malformed verdict from the forked case"); ln.push_back(in.substr(pos, e - pos)); pos = e + 1; }
+  v.ok = ln[0] == "1"; v.nontrivial = ln[1] == "1"; v.evals = std::stol(ln[2]); v.vacuous = ln[3] == "1"; v.excluded = ln[4];
+  long nl = std::stol(ln[5]);
+  for (long i = 0; i < nl; i++) { size_t e = in.find('\n', pos); if (e == std::string::npos) break; v.labels.push_back(in.substr(pos, e - pos)); pos = e + 1; }
+  v.msg = in.substr(pos);
+  return v;
+}
+inline Verdict guarded_run(const Prop &p, const CaseText &t) { return fork_mode() ? forked_run(p, t) : guarded_run_inproc(p, t); }
+inline Verdict guarded_run_inproc(const Prop &p, const CaseText &t) {
   int lim = case_cpu_limit();
   if (lim > 0) { signal(SIGVTALRM, vtalrm_cb); arm(lim); }
   try {
@@ -334,10 +375,22 @@ inline int main_(int argc, char **argv) {
     else if (a == "--only") only = nxt();
     else if (a == "--enum") enum_level = std::stoi(nxt());
     else if (a == "--budget") budget = std::stod(nxt());
+    else if (a == "--fork") fork_mode() = true;
+    else if (a == "--sample") { mode = "sample"; cases = std::stol(nxt()); }
     else { fprintf(stderr, "unknown arg %s\n", a.c_str()); return 2; }
   }
   auto &reg = registry();
   if (mode == "list") { for (auto &p : reg) printf("%s\n", p.name.c_str()); return 0; }
+  if (mode == "sample") {   // generator self-test: draw values outside rc::check, where a GenerationFailure (e.g. an invalid range) is not silently discarded
+    for (auto &p : reg) {
+      if (!p.gen || (!only.empty() && p.name != only)) continue;
+      rc::Random rnd(seed);
+      auto g = p.gen();
+      for (long i = 0; i < cases; i++) { rc::Random r = rnd.split(); (void)g(r, (int)(i % (size + 1))).value(); }
+      printf("sampled %ld cases of %s\n", cases, p.name.c_str());
+    }
+    return 0;
+  }
   State &s = st();
   install_death();
   if (mode == "replay") {
